@@ -2,6 +2,8 @@
 //! Everything here is sequential and bounded; every bound overflow is an assertion failure.
 #![allow(clippy::all)]
 
+#[macro_use]
+pub mod unroll;
 pub mod collections;
 pub mod fs;
 pub mod ghost;
@@ -10,6 +12,7 @@ pub mod mmap;
 pub mod pause;
 pub mod sync;
 pub mod thread;
+pub mod time;
 
 /// `kani::assume` under Kani; natively an "infeasible" panic (concrete playback never reaches it
 /// with values that came from a solver model).
